@@ -69,13 +69,17 @@ def replay_value(prog, size, staple):
     parts = [s for s, _, _ in res]
     try:
         orig = D.global_original([ctxs[r].outputs for r in range(size)])
-        part = D.global_partitioned(parts, [{"x": ctxs[r].x}
+        part = D.global_partitioned(parts, [ctxs[r].user_inputs()
                                             for r in range(size)])
     except (ValueError, KeyError) as e:
         reproduced(f"the partition's data flow is not defined: {e}")
     rng = np.random.default_rng(1)
-    data = {id(ctxs[r].x): rng.integers(-4, 5, D.SHAPE).astype(np.float64)
-            for r in range(size)}
+    data = {"n": 3}
+    for r in range(size):
+        for nm, obj in ctxs[r].user_inputs().items():
+            shp = tuple(3 if not isinstance(s_, int) else s_
+                        for s_ in obj.shape)
+            data[id(obj)] = rng.integers(-4, 5, shp).astype(np.float64)
     for r in range(size):
         for name, e0 in orig[r].items():
             want = eval_array(e0, data)
